@@ -188,11 +188,31 @@ class Capture:
             c.__exit__(*a)
 
 
-def fit_pcovr(j, label, X, Y, reg, **kw):
+def fit_pcovr(j, label, X, Y, reg, regressor_obj=None, past=None, **kw):
+    """Fit a PCovR.  regressor_obj: a (shared) regressor instance to pass instead of a fresh one.
+    past: a numpy Generator -> the SAME estimator object and the SAME input buffers are first used for
+    a fit on other data (then overwritten in place with the real data), as a caller re-using objects would."""
     from skmatter.decomposition import PCovR
 
     Yfit, extra = fit_args(reg, X, Y)
-    est = PCovR(regressor=make_regressor(reg), **kw)
+    robj = regressor_obj if regressor_obj is not None else make_regressor(reg)
+    est = PCovR(regressor=robj, **kw)
+    if past is not None:
+        Xbuf = np.array(past.normal(size=X.shape) * max(float(np.abs(X).std()), 1e-300), order="C")
+        Xbuf -= Xbuf.mean(axis=0)
+        Ybuf = np.array(np.asarray(Yfit, dtype=float), copy=True)
+        if reg["kind"] not in ("precomputed", "precomputed_W"):
+            Ybuf = past.normal(size=np.shape(Yfit)) * max(float(np.abs(np.asarray(Yfit)).std()), 1e-300)
+            Ybuf -= Ybuf.mean(axis=0)
+        else:  # a precomputed Yhat must stay consistent with X: Yhat = X W
+            Wd = extra.get("W")
+            Ybuf = (Xbuf @ (Wd if Wd is not None else past.normal(size=(X.shape[1],) + np.shape(Yfit)[1:]))).reshape(np.shape(Yfit))
+        j.lib(f"fit:earlier-history:{label}", est.fit, Xbuf, Ybuf, **extra)
+        Xbuf[...] = X
+        Ybuf[...] = np.asarray(Yfit, dtype=float)
+        j.note("estimators_with_a_past")
+        j.lib(f"fit:{label}", est.fit, Xbuf, Ybuf, **extra)
+        return est
     j.lib(f"fit:{label}", est.fit, X, Yfit, **extra)
     return est
 
